@@ -79,6 +79,11 @@ var recipes = []recipe{
 	{"settings-mid-history", func(r *hx.Rng, s uint64, o hx.Counter, a bool) []Case { return runSettings(drawSettings(r, s), o) }, 3},
 	{"export-import", func(r *hx.Rng, s uint64, o hx.Counter, a bool) []Case { return runExportImport(s, o) }, 1},
 	{"actor-perturbation", func(r *hx.Rng, s uint64, o hx.Counter, a bool) []Case { return runPerturb(drawPerturb(r, s), o) }, 4},
+	{"recovery-rewards-prefix", func(r *hx.Rng, s uint64, o hx.Counter, a bool) []Case {
+		m := [][]string{{"node1", "node10"}, {"node10", "node1"}, {"a", "ab"}, {"x1", "x2"}}[r.Intn(4)]
+		return runRRPrefix(RRPrefixParams{Seed: s, Snap: pickI(r, 1, 1, 1000), Monikers: m, Short: pickS(r, "6000000000000", "4000000000000", "10000000000000", "1000000"),
+			Long: pickS(r, "1000000", "6000000000000", "0"), Register: r.Intn(4), NBlocks: 10 + r.Intn(10)}, o)
+	}, 2},
 	{"random", recipeRandom, 6},
 }
 
